@@ -299,7 +299,8 @@ pub fn draw_cfg(p: &Profile) -> ClusterCfg {
     if p.liveness {
         let ts = if p.fault_free { 0 } else { kernel::choose(CFG, (duration_ms / 2 / 500).max(1)) * 500 };
         net.stabilise_at_ms = Some(ts);
-        net.post_delay_ms = if p.lockstep { 100 } else { 20 + kernel::choose(CFG, 9) * 10 }; // <= 100 ms, below DELTA
+        // post-stabilisation delays: constant-ish <= 100 ms, or per-message anything up to 150/200/250 ms (DELTA)
+        net.post_delay_ms = if p.lockstep { 100 } else { [20, 30, 40, 50, 60, 70, 80, 90, 100, 150, 200, 250][kernel::choose(CFG, 12) as usize] };
         // all scheduled faults end by the stabilisation time
         for f in &mut faults {
             match f {
